@@ -35,15 +35,23 @@ type vfC15Case struct {
 	Skip  int    `json:"skip"`
 	Size  int    `json:"size"`
 	Sched int    `json:"sched"` // 0: node answers inline, consumer never pauses; >0: racing schedule
+	// Plan: one entry per execution of the SAME *Query value (q.Iter() again): -1 = consume to the end,
+	// m >= 0 = stop asking for rows after m rows and Close. Rebind: q.Bind(values...) before executions 2, 3.
+	Plan   []int `json:"plan"`
+	Rebind int   `json:"rebind"`
 }
 
 type vfC15Result struct {
-	Run     int      `json:"run"`
+	Run     int      `json:"run"` // trace id of this execution: job*8 + exec
+	Job     int      `json:"job"`
+	Exec    int      `json:"exec"`
+	Stop    int      `json:"stop"`
+	QTok    int      `json:"qtok"` // paging state found in the caller's Query afterwards (-2: released, not looked at)
 	ID      int      `json:"id"`
 	Reqs    []int    `json:"reqs"`
 	ReqF    []string `json:"reqf"` // per request: everything but the paging state
 	Rows    [][2]int `json:"rows"`
-	Ended   string   `json:"ended"` // normal | error | aborted (runaway guard) | panic
+	Ended   string   `json:"ended"` // normal | error | abandoned (stopped as planned) | aborted (runaway guard) | panic
 	Err     int      `json:"err"`
 	Exposed int      `json:"exposed"`
 	ErrMsg  string   `json:"errmsg"`
@@ -60,6 +68,8 @@ const vfC15MaxRows = 64 // the consumer gives up beyond this many rows (runaway 
 // vfC15Run is one execution of a case.
 type vfC15Run struct {
 	c       vfC15Case
+	exec    int // 1-based execution of the plan
+	id      int // trace id
 	tr      *vfTracer
 	mu      sync.Mutex
 	nreq    int
@@ -97,23 +107,20 @@ func vfC15RunOf(text string) int {
 	return n
 }
 
-func vfC15Tok(run int, b []byte) int {
+// Paging states are "r<job>:e<exec>:<k>": job and execution in which the node issued them (exec 0: made
+// up by the caller for PageState), k = token. vfC15Tok returns (exec, k); k = 0 for no state, -1 unparsable.
+func vfC15Tok(job int, b []byte) (int, int) {
 	if len(b) == 0 {
-		return 0
+		return 0, 0
 	}
-	pre := fmt.Sprintf("r%d:", run)
-	s := string(b)
-	if !strings.HasPrefix(s, pre) {
-		return -1
+	var j, e, k int
+	if n, err := fmt.Sscanf(string(b), "r%d:e%d:%d", &j, &e, &k); n != 3 || err != nil || j != job || k < 1 {
+		return 0, -1
 	}
-	n, err := strconv.Atoi(s[len(pre):])
-	if err != nil || n < 1 {
-		return -1
-	}
-	return n
+	return e, k
 }
 
-func vfC15State(run, tok int) []byte { return []byte(fmt.Sprintf("r%d:%d", run, tok)) }
+func vfC15State(job, exec, tok int) []byte { return []byte(fmt.Sprintf("r%d:e%d:%d", job, exec, tok)) }
 
 func (w *vfC15Worker) handle(nc *vfNodeConn, f *vfFrame, q *vfRequest) bool {
 	switch f.Op {
@@ -135,18 +142,23 @@ func (w *vfC15Worker) handle(nc *vfNodeConn, f *vfFrame, q *vfRequest) bool {
 			nc.Reply(f, vfOpError, vfErrorBody(0x0000, "vf-stale request of a finished iteration", nil))
 			return true
 		}
-		r.onRequest(nc, f, q, text)
+		texec, tok := vfC15Tok(run, q.PageState)
+		if q.PageState != nil && tok > 0 && texec != 0 && texec != r.exec {
+			// a paging state the node issued during an EARLIER execution of this Query value: a prefetch of an
+			// abandoned iterator that is still under way, or state that leaked into the re-executed Query. It is
+			// not logged as a request of this execution (the two cannot be told apart on the wire); it is served
+			// like any request, so whatever the caller is handed because of it shows in the rows it receives.
+			atomic.AddInt64(&w.stale, 1)
+			r.serve(nc, f, q, tok, 0, false)
+			return true
+		}
+		r.onRequest(nc, f, q, text, tok)
 		return true
 	}
 	return false
 }
 
-func (r *vfC15Run) onRequest(nc *vfNodeConn, f *vfFrame, q *vfRequest, text string) {
-	c := &r.c
-	tok := 0
-	if q.PageState != nil {
-		tok = vfC15Tok(c.Run, q.PageState)
-	}
+func (r *vfC15Run) onRequest(nc *vfNodeConn, f *vfFrame, q *vfRequest, text string, tok int) {
 	op := "QUERY"
 	if f.Op == vfOpExecute {
 		op = "EXECUTE"
@@ -171,68 +183,75 @@ func (r *vfC15Run) onRequest(nc *vfNodeConn, f *vfFrame, q *vfRequest, text stri
 	r.reqs = append(r.reqs, tok)
 	r.reqf = append(r.reqf, fmt.Sprintf("%s|%s|%s|%d|%d|%d", op, text, vs, size, q.Cons, flags))
 	// the event is appended inside the same critical section that orders the requests
-	r.tr.Emit("req", "run", c.Run, "tok", tok, "op", op, "stmt", text, "vals", vs, "size", size, "cons", q.Cons, "flags", flags)
+	r.tr.Emit("req", "run", r.id, "tok", tok, "op", op, "stmt", text, "vals", vs, "size", size, "cons", q.Cons, "flags", flags)
 	r.mu.Unlock()
 
-	noMeta := q.QFlags&0x02 != 0
-	answer := func() {
-		page := tok + 1
-		if k > vfC15MaxReqs {
-			r.emitResp(0, 0, 0)
-			nc.Reply(f, vfOpError, vfErrorBody(0x0000, "vf-runaway: too many requests in one iteration", nil))
-			return
-		}
-		if tok < 0 || page > len(c.Pages) {
-			r.emitResp(0, 0, 0)
-			nc.Reply(f, vfOpError, vfErrorBody(0x2200, "vf-badstate: unknown paging state", nil))
-			return
-		}
-		if page == c.Fail {
-			msg := fmt.Sprintf("vf-fail run=%d page=%d.", c.Run, page)
-			r.emitResp(page, 0, 0)
-			switch (c.Run + page) % 3 {
-			case 0:
-				nc.Reply(f, vfOpError, vfErrorBody(0x0000, msg, nil))
-			case 1:
-				nc.Reply(f, vfOpError, vfErrorBody(0x1001, msg, nil))
-			default:
-				nc.Reply(f, vfOpError, vfErrorBody(0x1200, msg, func(w *vfW) { w.Short(int(Quorum)).Int(1).Int(2).Byte(0) }))
-			}
-			return
-		}
-		next := 0
-		var ps []byte
-		if page < len(c.Pages) {
-			next = page
-			ps = vfC15State(c.Run, page)
-		}
-		cells := make([][][]byte, 0, c.Pages[page-1])
-		for i := 1; i <= c.Pages[page-1]; i++ {
-			cells = append(cells, [][]byte{vfCellInt(int32(page)), vfCellInt(int32(i)), vfCellText(fmt.Sprintf("r%d.%d", page, i))})
-		}
-		r.emitResp(page, 1, next)
-		nc.Reply(f, vfOpResult, vfRowsBody(f.Version, "ks", "t", vfC15Cols, cells, ps, noMeta))
-	}
 	var d time.Duration
 	if k-1 < len(r.ndelay) {
 		d = r.ndelay[k-1]
 	}
 	if d == 0 {
-		answer()
+		r.serve(nc, f, q, tok, k, true)
 		return
 	}
 	r.pending.Add(1)
 	go func() {
 		defer r.pending.Done()
 		time.Sleep(d)
-		answer()
+		r.serve(nc, f, q, tok, k, true)
 	}()
+}
+
+// serve answers the k-th request of the execution (log: it is one) carrying token tok.
+func (r *vfC15Run) serve(nc *vfNodeConn, f *vfFrame, q *vfRequest, tok, k int, log bool) {
+	c := &r.c
+	resp := func(page, ok, next int) {
+		if log {
+			r.emitResp(page, ok, next)
+		}
+	}
+	page := tok + 1
+	if k > vfC15MaxReqs {
+		resp(0, 0, 0)
+		nc.Reply(f, vfOpError, vfErrorBody(0x0000, "vf-runaway: too many requests in one iteration", nil))
+		return
+	}
+	if tok < 0 || page > len(c.Pages) {
+		resp(0, 0, 0)
+		nc.Reply(f, vfOpError, vfErrorBody(0x2200, "vf-badstate: unknown paging state", nil))
+		return
+	}
+	if page == c.Fail {
+		msg := fmt.Sprintf("vf-fail run=%d page=%d.", c.Run, page)
+		resp(page, 0, 0)
+		switch (c.Run + page) % 3 {
+		case 0:
+			nc.Reply(f, vfOpError, vfErrorBody(0x0000, msg, nil))
+		case 1:
+			nc.Reply(f, vfOpError, vfErrorBody(0x1001, msg, nil))
+		default:
+			nc.Reply(f, vfOpError, vfErrorBody(0x1200, msg, func(w *vfW) { w.Short(int(Quorum)).Int(1).Int(2).Byte(0) }))
+		}
+		return
+	}
+	next := 0
+	var ps []byte
+	if page < len(c.Pages) {
+		next = page
+		ps = vfC15State(c.Run, r.exec, page)
+	}
+	cells := make([][][]byte, 0, c.Pages[page-1])
+	for i := 1; i <= c.Pages[page-1]; i++ {
+		cells = append(cells, [][]byte{vfCellInt(int32(page)), vfCellInt(int32(i)), vfCellText(fmt.Sprintf("r%d.%d", page, i))})
+	}
+	resp(page, 1, next)
+	nc.Reply(f, vfOpResult, vfRowsBody(f.Version, "ks", "t", vfC15Cols, cells, ps, q.QFlags&0x02 != 0))
 }
 
 func (r *vfC15Run) emitResp(page, ok, next int) {
 	r.mu.Lock()
 	r.resps++
-	r.tr.Emit("resp", "run", r.c.Run, "page", page, "ok", ok, "next", next)
+	r.tr.Emit("resp", "run", r.id, "page", page, "ok", ok, "next", next)
 	r.mu.Unlock()
 }
 
@@ -301,13 +320,13 @@ func vfC15Sched(c *vfC15Case, seed int64) (nd, cp, lp []time.Duration) {
 	return
 }
 
-func (w *vfC15Worker) runCase(c vfC15Case, seed int64) (vfC15Result, []map[string]interface{}) {
-	r := &vfC15Run{c: c, tr: vfNewTracer()}
-	r.ndelay, r.cpause, r.lpause = vfC15Sched(&c, seed)
-	res := vfC15Result{Run: c.Run, ID: c.ID, Reqs: []int{}, ReqF: []string{}, Rows: [][2]int{}}
-	w.cur.Store(r)
+// runCase executes the plan of a case: ONE Query value, q.Iter() once per plan entry. Each execution is
+// recorded as a trace and a result of its own.
+func (w *vfC15Worker) runCase(c vfC15Case, seed int64) (results []vfC15Result, traces [][]map[string]interface{}) {
+	if len(c.Plan) == 0 {
+		c.Plan = []int{-1}
+	}
 	s := w.sess[c.Skip&1]
-
 	var stmt string
 	var vals []interface{}
 	switch c.Prep {
@@ -319,9 +338,45 @@ func (w *vfC15Worker) runCase(c vfC15Case, seed int64) (vfC15Result, []map[strin
 		stmt = fmt.Sprintf("SELECT p, i, s FROM ks.t WHERE a = ? AND b = ? /*run=%d*/", c.Run)
 		vals = []interface{}{c.Run, 7}
 	}
-	rel := c.Run%2 == 1
-	r.tr.Emit("begin", "run", c.Run, "id", c.ID, "pages", c.Pages, "q", c.Q, "kind", c.Kind, "fail", c.Fail, "mode", c.Mode,
-		"start", c.Start, "prep", c.Prep, "skip", c.Skip, "size", c.Size, "sched", c.Sched)
+	var callerState []byte
+	if c.Mode == "manual" && c.Start > 0 {
+		callerState = vfC15State(c.Run, 0, c.Start)
+	}
+	q := s.Query(stmt, vals...).PageSize(c.Size).Prefetch(float64(c.Q) / 4).Consistency(vfC15Cons[c.Run%3])
+	if c.Mode == "manual" {
+		q = q.PageState(callerState)
+	}
+	for e := 1; e <= len(c.Plan); e++ {
+		if e > 1 && c.Rebind == 1 {
+			q = q.Bind(vals...) // documented: rebinding an existing query instance (it also forgets the page state)
+			if c.Mode == "manual" {
+				q = q.PageState(callerState)
+			}
+		}
+		// the documented pattern "Iter, Release, keep iterating" on odd single-execution cases
+		rel := len(c.Plan) == 1 && c.Run%2 == 1
+		res, evs := w.runExec(c, e, q, rel, seed)
+		results = append(results, res)
+		traces = append(traces, evs)
+		if strings.HasPrefix(res.Env, "hang") {
+			break
+		}
+	}
+	return
+}
+
+func (w *vfC15Worker) runExec(c vfC15Case, exec int, q *Query, rel bool, seed int64) (vfC15Result, []map[string]interface{}) {
+	stop := c.Plan[exec-1]
+	if c.Kind == "SliceMap" {
+		stop = -1 // one call: it cannot stop early
+	}
+	r := &vfC15Run{c: c, exec: exec, id: c.Run*8 + exec, tr: vfNewTracer()}
+	r.ndelay, r.cpause, r.lpause = vfC15Sched(&c, seed+int64(exec)*131)
+	res := vfC15Result{Run: r.id, Job: c.Run, Exec: exec, Stop: stop, QTok: -2, ID: c.ID, Reqs: []int{}, ReqF: []string{}, Rows: [][2]int{}}
+	w.cur.Store(r)
+	r.tr.Emit("begin", "run", r.id, "id", c.ID, "pages", c.Pages, "q", c.Q, "kind", c.Kind, "fail", c.Fail, "mode", c.Mode,
+		"start", c.Start, "prep", c.Prep, "skip", c.Skip, "size", c.Size, "sched", c.Sched, "exec", exec, "stop", stop,
+		"rebind", c.Rebind)
 
 	rows := [][2]int{}
 	row := func(p, i int, sv string) {
@@ -332,7 +387,7 @@ func (w *vfC15Worker) runCase(c vfC15Case, seed int64) (vfC15Result, []map[strin
 			p = -1000 - p // a row whose columns do not belong together
 		}
 		rows = append(rows, [2]int{p, i})
-		r.tr.Emit("row", "run", c.Run, "page", p, "idx", i)
+		r.tr.Emit("row", "run", r.id, "page", p, "idx", i)
 	}
 	pause := func() {
 		if n := len(rows); n < len(r.cpause) && r.cpause[n] > 0 {
@@ -343,8 +398,19 @@ func (w *vfC15Worker) runCase(c vfC15Case, seed int64) (vfC15Result, []map[strin
 			}
 		}
 	}
+	// more asks whether the caller wants another row; stopped: it left of its own accord
+	stopped := false
+	more := func() bool {
+		if stop >= 0 && len(rows) >= stop {
+			stopped = true
+			return false
+		}
+		if len(rows) > vfC15MaxRows {
+			return false
+		}
+		return true
+	}
 	var err error
-	aborted := false
 	var iter *Iter
 	panicked := ""
 	ok, dump := vfWithin(60*time.Second, func() {
@@ -353,21 +419,13 @@ func (w *vfC15Worker) runCase(c vfC15Case, seed int64) (vfC15Result, []map[strin
 				panicked = fmt.Sprintf("panic: %v", x)
 			}
 		}()
-		q := s.Query(stmt, vals...).PageSize(c.Size).Prefetch(float64(c.Q) / 4).Consistency(vfC15Cons[c.Run%3])
-		if c.Mode == "manual" {
-			var st []byte
-			if c.Start > 0 {
-				st = vfC15State(c.Run, c.Start)
-			}
-			q = q.PageState(st)
-		}
 		iter = q.Iter()
 		if rel {
-			q.Release() // the documented pattern: the query object goes back to the pool, the iterator lives on
+			q.Release()
 		}
 		switch c.Kind {
 		case "Scan":
-			for {
+			for more() {
 				pause()
 				var p, i int
 				var sv string
@@ -375,15 +433,11 @@ func (w *vfC15Worker) runCase(c vfC15Case, seed int64) (vfC15Result, []map[strin
 					break
 				}
 				row(p, i, sv)
-				if len(rows) > vfC15MaxRows {
-					aborted = true
-					break
-				}
 			}
 			err = iter.Close()
 		case "Scanner":
 			sc := iter.Scanner()
-			for {
+			for more() {
 				pause()
 				if !sc.Next() {
 					break
@@ -394,14 +448,10 @@ func (w *vfC15Worker) runCase(c vfC15Case, seed int64) (vfC15Result, []map[strin
 					p, i, sv = -1, -1, e.Error()
 				}
 				row(p, i, sv)
-				if len(rows) > vfC15MaxRows {
-					aborted = true
-					break
-				}
 			}
 			err = sc.Err()
 		case "MapScan":
-			for {
+			for more() {
 				pause()
 				m := map[string]interface{}{}
 				if !iter.MapScan(m) {
@@ -411,10 +461,6 @@ func (w *vfC15Worker) runCase(c vfC15Case, seed int64) (vfC15Result, []map[strin
 				i, _ := m["i"].(int)
 				sv, _ := m["s"].(string)
 				row(p, i, sv)
-				if len(rows) > vfC15MaxRows {
-					aborted = true
-					break
-				}
 			}
 			err = iter.Close()
 		default: // SliceMap
@@ -426,7 +472,6 @@ func (w *vfC15Worker) runCase(c vfC15Case, seed int64) (vfC15Result, []map[strin
 				sv, _ := m["s"].(string)
 				row(p, i, sv)
 				if len(rows) > vfC15MaxRows {
-					aborted = true
 					break
 				}
 			}
@@ -443,14 +488,18 @@ func (w *vfC15Worker) runCase(c vfC15Case, seed int64) (vfC15Result, []map[strin
 	}
 	exposed := 0
 	if iter != nil {
-		exposed = vfC15Tok(c.Run, iter.PageState())
+		_, exposed = vfC15Tok(c.Run, iter.PageState())
+	}
+	qtok := -2
+	if !rel {
+		_, qtok = vfC15Tok(c.Run, q.pageState) // in-package look at what the execution left in the caller's Query
 	}
 	normal, errpage, msg := 1, 0, ""
 	res.Ended = "normal"
 	if panicked != "" {
 		normal, res.Ended, msg = 3, "panic", panicked
 		errpage = -1
-	} else if aborted || (err != nil && strings.Contains(err.Error(), "vf-runaway")) {
+	} else if len(rows) > vfC15MaxRows || (err != nil && strings.Contains(err.Error(), "vf-runaway")) {
 		// stopped by the harness's runaway guards (rows without end / requests without end): not an ending of the driver's
 		normal, res.Ended = 2, "aborted"
 		if err != nil {
@@ -472,8 +521,19 @@ func (w *vfC15Worker) runCase(c vfC15Case, seed int64) (vfC15Result, []map[strin
 		case "timeout", "closed", "ctx", "net":
 			res.Env = "environment error, not paging behaviour: " + msg
 		}
+	} else if stopped {
+		normal, res.Ended = 2, "abandoned" // the caller stopped after `stop` rows; Close reported no error
 	}
-	r.tr.Emit("end", "run", c.Run, "normal", normal, "errpage", errpage, "exposed", exposed, "errmsg", msg)
+	r.tr.Emit("end", "run", r.id, "normal", normal, "errpage", errpage, "exposed", exposed, "errmsg", msg, "qtok", qtok)
+	r.pending.Wait()
+	if stopped {
+		// a prefetch the abandoned iterator has started may still be on its way: give it a moment to arrive while
+		// it can still be attributed to this execution (later it is recognised by its paging state and set aside)
+		for i := 0; i < 3; i++ {
+			time.Sleep(200 * time.Microsecond)
+			r.pending.Wait()
+		}
+	}
 	atomic.StoreInt32(&r.ended, 1)
 	r.pending.Wait()
 	r.mu.Lock()
@@ -485,6 +545,7 @@ func (w *vfC15Worker) runCase(c vfC15Case, seed int64) (vfC15Result, []map[strin
 	res.Err = errpage
 	res.Exposed = exposed
 	res.ErrMsg = msg
+	res.QTok = qtok
 	return res, r.tr.Events()
 }
 
@@ -543,16 +604,20 @@ func TestVfC15Run(t *testing.T) {
 			}
 			defer trOut.Close()
 			for k := wi; k < len(cases); k += nw {
-				res, evs := w.runCase(cases[k], seed)
-				resOut.Write(res)
-				if res.Env == "" {
-					for _, e := range evs {
-						delete(e, "seq")
-						trOut.Write(e)
+				ress, trs := w.runCase(cases[k], seed)
+				hang := false
+				for i, res := range ress {
+					resOut.Write(res)
+					if res.Env == "" {
+						for _, e := range trs[i] {
+							delete(e, "seq")
+							trOut.Write(e)
+						}
 					}
+					atomic.AddInt64(&done, 1)
+					hang = hang || strings.HasPrefix(res.Env, "hang")
 				}
-				atomic.AddInt64(&done, 1)
-				if strings.HasPrefix(res.Env, "hang") {
+				if hang {
 					// the stuck goroutine still owns the session: start over with fresh ones
 					w2, err := vfC15NewWorker(wi)
 					if err != nil {
